@@ -277,9 +277,10 @@ Schedule(pin, ein) ==
   IN [p |-> b.p, e |-> e3, next |-> nx, err |-> b.err]
 
 \* the scheduled thread performs its pending operation (Mutex::post_acquire for the lock operations)
+\* (a thread about to try_lock is not blocked: the operation fails instead - Operation::is_nonblocking)
 Acquire(e, t, m) ==
   [e EXCEPT !.holder[m] = t,
-            !.st = [u \in Thr |-> IF u # t /\ e.op[u].o = m THEN "blocked" ELSE e.st[u]]]
+            !.st = [u \in Thr |-> IF u # t /\ e.op[u].o = m /\ e.op[u].op # "trylock" THEN "blocked" ELSE e.st[u]]]
 Perform(e, t) ==
   LET ins == e.op[t] IN
   CASE ins.op = "ld"      -> [e EXCEPT !.regs[t] = Append(@, e.val[ins.o]), !.pc[t] = @ + 1]
@@ -307,17 +308,19 @@ Perform(e, t) ==
                                          !.st = [u \in Thr |-> IF (\E k \in 1..Len(e.cvq[ins.o]) : e.cvq[ins.o][k] = u)
                                                                    /\ e.st[u] \in {"blocked", "yield"} THEN "runnable" ELSE e.st[u]]]
     \* RwLock::post_acquire_read_lock: pending writers are blocked; post_acquire_write_lock: everybody pending on the lock
+    \* (pending try_read / try_write excepted: they fail instead of blocking)
     [] ins.op \in {"read", "tryread"} ->
          IF e.rw[ins.o].w # 0 THEN [e EXCEPT !.regs[t] = Append(@, 0), !.pc[t] = @ + 1]          \* only try_read gets here
          ELSE [e EXCEPT !.rw[ins.o].r = @ \cup {t}, !.pc[t] = @ + 1,
                         !.regs[t] = IF ins.op = "tryread" THEN Append(@, 1) ELSE @,
-                        !.st = [u \in Thr |-> IF u # t /\ e.op[u].o = ins.o /\ e.op[u].op \in {"write", "trywrite"}
+                        !.st = [u \in Thr |-> IF u # t /\ e.op[u].o = ins.o /\ e.op[u].op = "write"
                                               THEN "blocked" ELSE e.st[u]]]
     [] ins.op \in {"write", "trywrite"} ->
          IF e.rw[ins.o].w # 0 \/ e.rw[ins.o].r # {} THEN [e EXCEPT !.regs[t] = Append(@, 0), !.pc[t] = @ + 1]
          ELSE [e EXCEPT !.rw[ins.o].w = t, !.pc[t] = @ + 1,
                         !.regs[t] = IF ins.op = "trywrite" THEN Append(@, 1) ELSE @,
-                        !.st = [u \in Thr |-> IF u # t /\ e.op[u].o = ins.o THEN "blocked" ELSE e.st[u]]]
+                        !.st = [u \in Thr |-> IF u # t /\ e.op[u].o = ins.o /\ e.op[u].op \notin {"tryread", "trywrite"}
+                                              THEN "blocked" ELSE e.st[u]]]
     \* Channel::send: nothing is queued once the receiver is gone; the first message wakes the receiver
     [] ins.op = "send"    -> IF e.closed[ins.o] THEN [e EXCEPT !.pc[t] = @ + 1]
                              ELSE [e EXCEPT !.chq[ins.o] = Append(@, StVal(t, e.pc[t])), !.pc[t] = @ + 1,
